@@ -41,20 +41,32 @@ def gen_case(rng, max_len, n=8):
     fl = [int(rng.random() < 0.1) for _ in range(n)]
     ops = []
     g = 0
+    mixed = rng.random() < 0.3      # histories that mix serial and real fork runs on the one Lab
     for _ in range(rng.randint(3, max_len)):
         r = rng.random()
         if r < 0.5 or not ops:
             g += 1
             req = rng.sample(range(n), rng.choice([1, 1, 2, 3]))
-            ops.append(['R', int(rng.random() < 0.22), g, req])
+            bust = int(rng.random() < 0.25)
+            # tasks that raise in THIS run only (Lab context): mostly from the request's closure
+            fail = []
+            if rng.random() < (0.5 if bust else 0.2):
+                clo, todo = set(), list(req)
+                while todo:
+                    t = todo.pop()
+                    if t not in clo:
+                        clo.add(t)
+                        todo += deps[t]
+                pool = sorted(clo) if rng.random() < 0.8 else list(range(n))
+                fail = sorted(rng.sample(pool, min(len(pool), rng.choice([1, 1, 2]))))
+            ops.append(['R', bust, g, req, fail, 'fork' if (mixed and rng.random() < 0.3) else 'serial'])
         elif r < 0.65:
             ops.append(['U', rng.sample(range(n), rng.choice([1, 2, 3]))])
         elif r < 0.8:
             ops.append(['I', rng.randrange(n)])
         else:
             ops.append(['C', sorted(rng.sample(range(3), rng.choice([1, 2, 3])))])
-    return dict(ty=ty, ca=ca, deps=deps, fl=fl, ops=ops, storage=rng.choice(STORAGES),
-                backend='fork' if rng.random() < 0.06 else 'serial')
+    return dict(ty=ty, ca=ca, deps=deps, fl=fl, ops=ops, storage=rng.choice(STORAGES), backend='serial')
 
 
 def encode(case):
@@ -63,7 +75,7 @@ def encode(case):
     ops = []
     for op in case['ops']:
         if op[0] == 'R':
-            ops.append(f'R{op[1]}:{op[2]}:{lst(op[3])}')
+            ops.append(f'R{op[1]}:{op[2]}:{lst(op[3])}' + (f':{lst(op[4])}' if len(op) > 4 else ''))
         elif op[0] == 'U':
             ops.append('U:' + lst(op[1]))
         elif op[0] == 'I':
@@ -83,7 +95,8 @@ def reference(case):
     store, out = {}, []
     for op in case['ops']:
         if op[0] == 'R':
-            _, bust, g, req = op
+            bust, g, req = op[1], op[2], op[3]
+            fail = op[4] if len(op) > 4 else []
             mem, execd, loaded = {}, set(), {}
 
             def need(t):
@@ -95,7 +108,7 @@ def reference(case):
                     return mem[t]
                 vals = [need(d) for d in case['deps'][t]]
                 execd.add(t)
-                mem[t] = None if (case['fl'][t] or any(v is None for v in vals)) else 1000 * t + g + sum(vals)
+                mem[t] = None if (case['fl'][t] or t in fail or any(v is None for v in vals)) else 1000 * t + g + sum(vals)
                 if mem[t] is not None and persists(t):
                     store[t] = (mem[t], g)
                 return mem[t]
@@ -110,7 +123,7 @@ def reference(case):
         elif op[0] == 'I':
             out.append(dict(kind='bool', b=op[1] in store))
         else:
-            out.append(dict(kind='tasks', ts=sorted(t for t in store if case['ty'][t] in op[1])))
+            out.append(dict(kind='tasks', ts=[f'{t}:{store[t][1]}' for t in sorted(store) if case['ty'][t] in op[1]]))
         out[-1]['keys'] = sorted(store)
     return out
 
@@ -137,16 +150,29 @@ def make_storage(kind, d):
     return LocalFsspecStorage(os.path.join(d, 'store'))
 
 
-def run_real(case):
+def iso_meta(m):
+    return None if m is None else [m.start.isoformat() if m.start else None,
+                                   m.duration.total_seconds() if m.duration is not None else None]
+
+
+def run_real(case, snap_root=None):
+    """the whole history on ONE Lab object over ONE storage object (per run only the context and the
+    runner backend of that Lab change). With snap_root: after every step the storage directory is
+    copied there (step<i>/) and the result_meta seen in-process is recorded, for comparison with what
+    a fresh interpreter reads from that snapshot (props/c06x.py)."""
     import labtech
     import histtasks as H
+    from labtech.runners import ForkRunnerBackend, SerialRunnerBackend, SpawnRunnerBackend
+    backends = {'serial': SerialRunnerBackend, 'fork': ForkRunnerBackend, 'spawn': SpawnRunnerBackend}
     labtech.logger.setLevel(logging.CRITICAL)
     d = tempfile.mkdtemp(prefix='verif-c08-')
     try:
         H.configure(case['ca'])
         objs = H.build(case)
         H.EXEC_LOG = os.path.join(d, 'exec.log')
+        os.environ['VERIF_HIST_LOG'] = H.EXEC_LOG     # spawned workers
         storage = make_storage(case['storage'], d)
+        lab = labtech.Lab(storage=storage, runner_backend='serial', max_workers=2, continue_on_failure=True)
         key_tid = {o.cache_key: o.k for o in objs}
         rec_meta = {}   # tid -> (g, start, duration) recorded when the task was executed
         out = []
@@ -160,11 +186,12 @@ def run_real(case):
                     ks.append('UNKNOWN:' + key)
             return sorted(ks, key=str)
 
-        for op in case['ops']:
+        for step, op in enumerate(case['ops']):
             g = op[2] if op[0] == 'R' else 0
-            lab = labtech.Lab(storage=storage, runner_backend=case['backend'] if op[0] == 'R' else 'serial',
-                              max_workers=2, context={'g': g}, continue_on_failure=True)
+            seen = {}     # tid -> result_meta this step showed (loaded, executed or listed)
             if op[0] == 'R':
+                lab.context = {'g': g, 'fail': list(op[4]) if len(op) > 4 else []}
+                lab.runner_backend = backends[op[5] if len(op) > 5 else case.get('backend', 'serial')]()
                 objs = H.build(case)   # fresh objects for every run (no result_meta carried over)
                 pos = os.path.getsize(H.EXEC_LOG) if os.path.exists(H.EXEC_LOG) else 0
                 try:
@@ -187,10 +214,12 @@ def run_real(case):
                         rm = rec_meta.get(k)
                         stamp = rm[0] if (rm and m is not None and m.start == rm[1] and m.duration == rm[2]) else 'X'
                         loaded[k] = [int(l[2]) if l[2].lstrip('-').isdigit() else l[2], stamp]
+                        seen[k] = iso_meta(m)
                 for k in execd:
                     m = objs[k].result_meta
                     if m is not None:
                         rec_meta[k] = (g, m.start, m.duration)
+                        seen[k] = iso_meta(m)
                 o = dict(kind='ran', ret=ret, execd=execd, loaded=loaded, err=err, dup_exec=len(execd) != len(set(execd)))
             elif op[0] == 'U':
                 try:
@@ -205,13 +234,22 @@ def run_real(case):
                     o = dict(kind='raised', err=type(e).__name__)
             else:
                 try:
-                    o = dict(kind='tasks', ts=sorted(t.k for t in lab.cached_tasks([H.TYPES[T] for T in op[1]])))
+                    ts = []
+                    for x in sorted(lab.cached_tasks([H.TYPES[T] for T in op[1]]), key=lambda x: x.k):
+                        m, rm = x.result_meta, rec_meta.get(x.k)
+                        # the run stamp whose recorded start/duration the listed task carries
+                        ts.append(f"{x.k}:{rm[0] if (rm and m is not None and m.start == rm[1] and m.duration == rm[2]) else 'X'}")
+                        seen[x.k] = iso_meta(m)
+                    o = dict(kind='tasks', ts=ts)
                 except BaseException as e:
                     o = dict(kind='tasks', ts=['raised ' + type(e).__name__])
             try:
                 o['keys'] = keys_now(lab)
             except BaseException as e:
                 o['keys'] = ['find_keys raised ' + type(e).__name__]
+            o['seen'] = seen
+            if snap_root is not None and case['storage'] != 'none':
+                shutil.copytree(os.path.join(d, 'store'), os.path.join(snap_root, f'step{step}'))
             out.append(o)
         return out
     finally:
@@ -393,24 +431,27 @@ def run(ctx):
     dist = dict(
         histories=len(recs), operations=sum(len(r['case']['ops']) for r in recs),
         by_storage={s: sum(1 for r in recs if r['case']['storage'] == s) for s in STORAGES},
-        by_backend={b: sum(1 for r in recs if r['case']['backend'] == b) for b in ('serial', 'fork')},
+        runs_by_backend={b: sum(1 for r in recs for op in r['case']['ops'] if op[0] == 'R' and (op[5] if len(op) > 5 else 'serial') == b) for b in ('serial', 'fork')},
+        histories_mixing_serial_and_fork=sum(1 for r in recs if len({op[5] for op in r['case']['ops'] if op[0] == 'R' and len(op) > 5}) > 1),
+        runs_with_context_failures=sum(1 for r in recs for op in r['case']['ops'] if op[0] == 'R' and len(op) > 4 and op[4]),
+        bust_runs_with_failures=sum(1 for r in recs for op in r['case']['ops'] if op[0] == 'R' and op[1] and len(op) > 4 and op[4]),
         op_mix={k: sum(1 for r in recs for op in r['case']['ops'] if op[0] == k) for k in 'RUIC'},
         bust_runs=sum(1 for r in recs for op in r['case']['ops'] if op[0] == 'R' and op[1]),
         cache_kinds={k: sum(r['case']['ca'].count(k) for r in recs) for k in 'pon'},
-        histories_with_a_failing_task=sum(1 for r in recs if any(r['case']['fl'])),
+        histories_with_an_always_failing_task=sum(1 for r in recs if any(r['case']['fl'])),
         runs_that_loaded_something=sum(1 for r in recs for s in r['real'] if s.startswith('ran') and 'loaded= ' not in s + ' ' and not s.split(' K=')[0].endswith('loaded=')),
         history_length={'min': min(len(r['case']['ops']) for r in recs), 'max': max(len(r['case']['ops']) for r in recs)},
         wall_s=round(time.time() - t0, 1),
     )
     return dict(
         evaluations=len(recs), distinct_nontrivial=len({json.dumps(r['case'], sort_keys=True) for r in recs if nontrivial(r['case'])}),
-        rule='generated operation histories (8 tasks with dependencies, 3 task types with cache kind pickle/second BaseCache subclass/None each, ~10% failing tasks), each replayed on LocalStorage, FsspecStorage(LocalFileSystem) and storage=None; non-trivial = real storage, >= 2 runs and at least one bust_cache run or uncache_tasks call',
+        rule='generated operation histories (8 tasks with dependencies, 3 task types with cache kind pickle/second BaseCache subclass/None each, ~10% always-failing tasks, per-run failure sets chosen through the Lab context, 30% of the histories mixing serial and real fork runs), each history on ONE Lab and ONE storage object, each replayed on LocalStorage, FsspecStorage(LocalFileSystem) and storage=None; non-trivial = real storage, >= 2 runs and at least one bust_cache run or uncache_tasks call',
         samples=[dict(line=encode(r['case']), real=r['real']) for r in recs[:2]],
         violations=viol[:5], disagreements=dis[:5], distribution=dist,
         assumptions=['run() is the deterministic family of harness/histtasks.py (value = 1000*k + run stamp + dependency results)',
                      'distinct tasks have distinct cache keys (C07) - the universe uses distinct k',
-                     'serial backend, a few histories on the real fork backend'],
-        explanation='real Lab (run_tasks / bust_cache / uncache_tasks / is_cached / cached_tasks, real caches, real LocalStorage and FsspecStorage) vs the Lean HIST model step by step (outputs, executed set, loaded values with the stamp of the run whose meta they carry, find_keys as a sorted set), and vs a plain Python dict reference as monitor',
+                     'serial backend and real fork workers (per run) on one Lab object'],
+        explanation='real Lab (run_tasks / bust_cache / uncache_tasks / is_cached / cached_tasks, real caches, real LocalStorage and FsspecStorage) vs the Lean HIST model step by step (outputs, executed set, loaded values and cached_tasks() results with the stamp of the run whose start/duration they carry, find_keys as a sorted set), and vs a plain Python dict reference as monitor',
     )
 
 
